@@ -142,6 +142,18 @@ def control_descriptor(flows, root_path, body_path, bb, within=None):
         for nm in opt_params:
             if desc_mentions(test, lambda d: d[0] in ("place", "discr") and (d[1] == nm or d[1].startswith(nm + ".") or d[1].startswith(nm + " "))):
                 params.add(nm)
+        # ... and what the tested value is COMPUTED from, by provenance rather than by name: an option that reaches the
+        # test as a field of a parameter struct (`options.cutoff`) or under another name is still that option
+        try:
+            rd_ = fl.atom_reads(a)
+        except Exception:
+            rd_ = set()
+        if rd_:
+            for (bp_, n_) in flows.slice(body_path, rd_, up=True, down="clos", data_only=True, roots=(root_path,), skip_captures=True):
+                if bp_ == root_path and n_[0] in ("L", "SRC") and isinstance(n_[1], int) and 1 <= n_[1] <= rb.arg_count:
+                    nm_ = rb.local_name(n_[1])
+                    if nm_ in opt_params:
+                        params.add(nm_)
     # `opt.map(|x| f(x))` runs f exactly when `opt` is Some: the closure body is "under opt" just as the
     # Some arm of `match opt` is
     if b.kind == "closure":
@@ -374,7 +386,7 @@ def producers(flows, body, operand, depth=0, seen=None):
     seen = seen if seen is not None else set()
     fl = flows.of(body)
     out = set()
-    if operand is None or operand.place is None or depth > 12:
+    if operand is None or operand.place is None or depth > 30:
         return {"?"}
     pl = operand.place
     key = (body.path, pl.local, tuple(str(e) for e in pl.proj))
@@ -773,3 +785,255 @@ def same_on_grid(fl, d, leaf_for, expected, grid, tol=1e-9):
         if abs(got - want) > tol * max(1.0, abs(want)):
             return (False, pt, got, want)
     return (True, None)
+
+
+# ---------------------------------------------------------------------------------------------------------------
+# formula identity: the value a function returns, as arithmetic over named quantities, compared with the closed form
+# of the definition at a grid of points.  Expression trees are evaluated -- definitions are followed through copies,
+# casts and (by REACHING DEFINITIONS) through variables that are assigned more than once; no path of graphrs is run and
+# no branch is decided: every definition that can reach the use is evaluated and reported with its own value.
+
+def reaching_defs(b, local, bb, idx):
+    """definitions (assignment statements or call terminators) of the whole local that can reach position (bb, idx)
+    -- idx is the statement index of the use, len(stmts) for the terminator"""
+    out, seen_blocks, seen_defs = [], set(), set()
+
+    def scan(bi, upto):
+        blk = b.blocks[bi]
+        if upto > len(blk.stmts) and blk.term.k == "call" and blk.term.dest is not None and blk.term.dest.local == local and not blk.term.dest.proj:
+            return blk.term
+        for j in range(min(upto, len(blk.stmts)) - 1, -1, -1):
+            s = blk.stmts[j]
+            if s.k == "assign" and s.lhs.local == local and not s.lhs.proj:
+                return s
+        return None
+
+    work = [(bb, idx)]
+    while work:
+        bi, upto = work.pop()
+        d = scan(bi, upto)
+        if d is not None:
+            if id(d) not in seen_defs:
+                seen_defs.add(id(d))
+                out.append(d)
+            continue
+        for p in b.pred(bi):
+            if p not in seen_blocks:
+                seen_blocks.add(p)
+                work.append((p, 10 ** 9))
+    return out
+
+
+class FormulaEval:
+    """evaluates operands / definitions of one body numerically under a leaf assignment"""
+
+    THROUGH = ("from", "into", "clone", "copied", "cloned", "deref", "borrow", "as_ref", "to_owned", "unwrap_or_default")
+
+    def __init__(self, fl):
+        import panic
+
+        self.fl = fl
+        self.b = fl.b
+        self.norm = panic.norm
+        self.term_leaf = None  # optional: term_leaf(call terminator, point leaf) -> value | None, consulted before the description leaf
+        self.pos = {}
+        for blk in self.b.normal_blocks():
+            for j, s in enumerate(blk.stmts):
+                self.pos[id(s)] = (blk.i, j)
+            self.pos[id(blk.term)] = (blk.i, len(blk.stmts))
+
+    def defs_at(self, local, at):
+        """the definitions of `local` that reach the position of statement / terminator `at`"""
+        ds = self.b.assigns_to(local)
+        whole = [d for (_bb, d) in ds if getattr(d, "k", None) == "call" or not d.lhs.proj]
+        if len(whole) <= 1 or at is None or id(at) not in self.pos:
+            return whole
+        bb, idx = self.pos[id(at)]
+        return reaching_defs(self.b, local, bb, idx)
+
+    def operand(self, op, leaf, at=None, depth=0):
+        """-> list of values (one per reaching definition), or None when some definition is not arithmetic"""
+        if depth > 24:
+            return None
+        fl = self.fl
+        if op.place is None:
+            v = eval_expr(fl, self.norm(fl.describe(op)), leaf)
+            return None if v is None else [v]
+        d = self.norm(fl.describe(op, depth=6))
+        v = leaf(d)
+        if v is not None:
+            return [v]
+        p = op.place
+        if p.proj:
+            # first component of a checked-arithmetic pair
+            if len(p.proj) == 1 and isinstance(p.proj[0], dict) and str(p.proj[0].get("f")) == "0":
+                ds = self.defs_at(p.local, at)
+                if len(ds) == 1 and getattr(ds[0], "rv", None) is not None and ds[0].rv.k == "binop" and ds[0].rv.j["op"].endswith("WithOverflow"):
+                    return self.definition(ds[0], leaf, depth + 1)
+            return None
+        ds = self.defs_at(p.local, at)
+        if not ds:
+            return None
+        out = []
+        for d_ in ds:
+            vs = self.definition(d_, leaf, depth + 1)
+            if vs is None:
+                return None
+            out += vs
+        return out
+
+    def definition(self, d, leaf, depth=0):
+        fl = self.fl
+        if getattr(d, "k", None) == "call":
+            if self.term_leaf is not None:
+                v = self.term_leaf(d, leaf)
+                if v is not None:
+                    return [v]
+            dd = self.norm(fl.describe_def(d, depth=6))
+            v = leaf(dd)
+            if v is not None:
+                return [v]
+            nm = d.callee.short.split("::")[-1] if d.callee else ""
+            if nm in self.THROUGH and len(d.args) == 1:
+                return self.operand(d.args[0], leaf, d, depth + 1)
+            args = [self.operand(a, leaf, d, depth + 1) for a in d.args]
+            if any(a is None for a in args):
+                return None
+            import itertools
+
+            res = []
+            for combo in itertools.product(*args):
+                r = self._apply_call(nm, combo)
+                if r is None:
+                    return None
+                res.append(r)
+            return res
+        rv = d.rv
+        if rv.k in ("use", "cast"):
+            return self.operand(rv.ops[0], leaf, d, depth + 1)
+        if rv.k == "unop" and rv.j["op"] == "Neg":
+            xs = self.operand(rv.ops[0], leaf, d, depth + 1)
+            return None if xs is None else [-x for x in xs]
+        if rv.k == "binop":
+            xs = self.operand(rv.ops[0], leaf, d, depth + 1)
+            ys = self.operand(rv.ops[1], leaf, d, depth + 1)
+            if xs is None or ys is None:
+                return None
+            op = rv.j["op"].replace("WithOverflow", "").replace("Unchecked", "")
+            res = []
+            for x in xs:
+                for y in ys:
+                    r = self._apply_call({"Add": "add", "Sub": "sub", "Mul": "mul", "Div": "div"}.get(op, "?"), (x, y))
+                    if r is None:
+                        return None
+                    res.append(r)
+            return res
+        return None
+
+    @staticmethod
+    def _apply_call(nm, a):
+        try:
+            if nm == "add" and len(a) == 2:
+                return a[0] + a[1]
+            if nm == "sub" and len(a) == 2:
+                return a[0] - a[1]
+            if nm == "mul" and len(a) == 2:
+                return a[0] * a[1]
+            if nm == "div" and len(a) == 2:
+                return a[0] / a[1] if a[1] != 0 else None
+            if nm == "powi" and len(a) == 2:
+                return a[0] ** int(a[1])
+            if nm == "powf" and len(a) == 2:
+                return a[0] ** a[1]
+            if nm == "sqrt" and len(a) == 1:
+                return a[0] ** 0.5 if a[0] >= 0 else None
+            if nm == "saturating_sub" and len(a) == 2:
+                return max(a[0] - a[1], 0.0)
+            if nm == "recip" and len(a) == 1:
+                return 1.0 / a[0] if a[0] else None
+        except (OverflowError, ZeroDivisionError, ValueError):
+            return None
+        return None
+
+
+def value_forms_on_grid(fl, op, at, leaf_for, grid):
+    """the values an operand can have (one per reaching definition), each as the tuple of its values over the grid;
+    None when some reaching definition is not arithmetic over the leaves"""
+    fe = FormulaEval(fl)
+    cols = []
+    for pt in grid:
+        vs = fe.operand(op, leaf_for(pt), at)
+        if vs is None:
+            return None
+        cols.append(vs)
+    n = len(cols[0])
+    if any(len(c) != n for c in cols):
+        return None
+    return [tuple(c[i] for c in cols) for i in range(n)]
+
+
+def matches_form(vec, expected, grid, tol=1e-9):
+    return all(abs(v - expected(pt)) <= tol * max(1.0, abs(expected(pt))) for v, pt in zip(vec, grid))
+
+
+def forms_of_def(fl, d, leaf_for, grid, fe=None):
+    """like value_forms_on_grid, for the value a definition (statement / call terminator) produces"""
+    fe = fe or FormulaEval(fl)
+    cols = []
+    for pt in grid:
+        vs = fe.definition(d, leaf_for(pt))
+        if vs is None:
+            return None
+        cols.append(vs)
+    n = len(cols[0])
+    if any(len(c) != n for c in cols):
+        return None
+    return [tuple(c[i] for c in cols) for i in range(n)]
+
+
+def classify_forms(forms, allowed, grid, zero_ok=True):
+    """-> (names of the allowed forms that occur, list of forms that match none)"""
+    seen, bad = set(), []
+    for f in forms:
+        hit = None
+        for nm, fn in allowed.items():
+            if matches_form(f, fn, grid):
+                hit = nm
+                break
+        if hit is None and zero_ok and all(x == 0 for x in f):
+            hit = "0"
+        if hit is None:
+            bad.append(f)
+        else:
+            seen.add(hit)
+    return seen, bad
+
+
+def mapped_closure_of(fl, term, depth=8):
+    """the closure handed to the `map` (or filter_map / flat_map) adaptor that feeds this consumer call (sum, count ..)"""
+    op = term.args[0] if term.args else None
+    for _ in range(depth):
+        if op is None or op.place is None:
+            return None
+        d = fl.single_def(op.place.local)
+        if d is None:
+            return None
+        if getattr(d, "k", None) == "call":
+            nm = d.callee.short.split("::")[-1] if d.callee else ""
+            if nm in ("map", "filter_map", "flat_map") and len(d.args) >= 2 and d.args[1].place is not None:
+                for c in fl.copies_of(d.args[1].place.local) | {d.args[1].place.local}:
+                    if c in fl.closure_locals:
+                        return fl.closure_locals[c]
+                return None
+            op = d.args[0] if d.args else None
+        else:
+            rv = d.rv
+            if rv.k in ("use", "cast") and rv.ops:
+                op = rv.ops[0]
+            elif rv.k in ("ref", "copyderef") and rv.place is not None and all(e == "*" for e in rv.place.proj):
+                from flow import _LocalOperand
+
+                op = _LocalOperand(rv.place.local, fl.b.local_ty(rv.place.local))
+            else:
+                return None
+    return None
